@@ -15,7 +15,9 @@ def run():
     mods = sorted(glob.glob(os.path.join(c.SPEC, '*.tla')))
 
     def parse(m):
-        p = c.sh(['java', '-cp', c.TLA_CP, 'tla2sany.SANY', os.path.basename(m)], cwd=c.SPEC, timeout=120)
+        td = c.scratch('sany')     # SANY unpacks the standard modules into java.io.tmpdir
+        p = c.sh(['java', '-Djava.io.tmpdir=' + td, '-cp', c.TLA_CP, 'tla2sany.SANY', os.path.basename(m)], cwd=c.SPEC, timeout=120)
+        c.rmtree(td)
         return m, ('Semantic errors' in p.stdout or 'Parse Error' in p.stdout or 'Fatal' in p.stdout or p.returncode != 0), p.stdout[-800:]
     for m, bad, out in c.pmap(parse, mods, 8):
         if bad:
